@@ -740,7 +740,7 @@ mod xen_dev {
 pub fn run(tier: Tier, replay: Option<String>) -> i32 {
     let ctx = crate::new_ctx("C03", tier, "model_checking", &replay);
     let xen = cfg!(feature = "xen");
-    ctx.set_rule("E1: (a) depth 1 from a state in which every mapped byte carries a distinct label: every layout over U one-byte cells x bases {0, mid, top} (the mmap-backed map is built, rotating with the layout, by one constructor call, by inserting the regions one by one from the back, or together with extra regions that are removed again - a valid update may not be refused and the resulting map must behave the same) x every route (write, read, *_slice, *_obj of 1..16 bytes, the four stream forms with ample in-memory streams, store/load) x every start address in [base-1, base+U+1] x every length 1..=U+2; (a') three regions of 70000 / 66000 / 131073 bytes (two adjacent, one after a hole): every route with transfers of 2^16-1 .. 140000 bytes in one call, inside one region, crossing regions and ending in the hole; two adjacent regions of 2 MiB + 70000 and 1 MiB + 5 bytes: every route with transfers of 1 MiB+1 .. 3 MiB+60000 bytes in one call; (b) BFS over all histories up to depth 3 of a reduced alphabet (all routes x ranges that overlap and straddle region boundaries and holes), state = complete memory contents, restored from the snapshot. Every transition runs on the real memory object; result class, counts, the complete guest memory (all regions, via host pointers), read buffers incl. untouched tail and (file-backed) the backing file are compared with a sparse byte-array model.");
+    ctx.set_rule("E1: (a) depth 1 from a state in which every mapped byte carries a distinct label: every layout over U one-byte cells x bases {0, mid, top} (the mmap-backed map is built, rotating with the layout, by one constructor call, by inserting the regions one by one from the back, or together with extra regions that are removed again - a valid update may not be refused and the resulting map must behave the same) x every route (write, read, *_slice, *_obj of 1..16 bytes, the four stream forms with ample in-memory streams, store/load) x every start address in [base-1, base+U+1] x every length 1..=U+2; (a') three regions of 70000 / 66000 / 131073 bytes (two adjacent, one after a hole): every route with transfers of 2^16-1 .. 140000 bytes in one call, inside one region, crossing regions and ending in the hole; two adjacent regions of 2 MiB + 70000 and 1 MiB + 5 bytes: every route with transfers of 1 MiB+1 .. 3 MiB+60000 bytes in one call; one region of 64 MiB + 70000 bytes: six routes with transfers of 2^26+1 and 2^26+60000 bytes in one call; (b) BFS over all histories up to depth 3 of a reduced alphabet (all routes x ranges that overlap and straddle region boundaries and holes), state = complete memory contents, restored from the snapshot. Every transition runs on the real memory object; result class, counts, the complete guest memory (all regions, via host pointers), read buffers incl. untouched tail and (file-backed) the backing file are compared with a sparse byte-array model.");
     ctx.assume("error variants other than InvalidGuestAddress and PartialBuffer{expected,completed} are compared by class only");
     if xen {
         ctx.assume("Xen build: the cell layouts use MmapXenFlags::UNIX mappings; grant regions (mapped in advance and on demand) are exercised on the emulated gntdev with page-sized regions");
@@ -899,6 +899,31 @@ pub fn run(tier: Tier, replay: Option<String>) -> i32 {
                         step(&ctx, anon, &m, &l, &st, &op, &[], None);
                         t += 1;
                     }
+                }
+            }
+            ctx.add_transitions(t);
+            ctx.add_traces(t);
+            ctx.add_states(1);
+        }
+    }
+    // one region of 64 MiB + 70000 bytes: single transfers beyond 2^26 bytes through the buffer,
+    // slice and stream routes (no route caps or re-bases a transfer at any size)
+    if !xen {
+        const M: u64 = 1 << 20;
+        let a = 0x1000_0000u64;
+        let l = Layout { regs: vec![(a, 64 * M + 70000)] };
+        let st = Model::labelled(&l);
+        if let Some(m) = build_mmap_route_checked(&ctx, "C03", &l, 0) {
+            let mut t = 0u64;
+            let cases: Vec<(u64, usize)> = vec![(a, (64 * M + 1) as usize), (a + 5, (64 * M + 60000) as usize)];
+            for (ri, route) in ROUTES.iter().enumerate() {
+                if !matches!(route, Route::Write | Route::WriteSlice | Route::Read | Route::ReadSlice | Route::ReadFrom | Route::WriteAllTo) {
+                    continue;
+                }
+                for (addr, len) in &cases {
+                    let op = Op { route: *route, addr: *addr, len: *len, tag: ri as u8 + 9 };
+                    step(&ctx, anon, &m, &l, &st, &op, &[], None);
+                    t += 1;
                 }
             }
             ctx.add_transitions(t);
